@@ -148,13 +148,17 @@ fn producer_writer(s: Arc<Sched>, sh: Arc<Shared>, tx: mpsc::Sender<rustdds::wit
     let qos = QosPolicyBuilder::new().reliability(Reliability::Reliable { max_blocking_time: Duration::from_secs(3600) }).history(History::KeepAll).build();
     let (mut rig, dw) = WriterRig::new_with_datawriter(&qos, crate::writer_drv::WRITER_GUID);
     tx.send(dw).unwrap();
+    // the event loop runs process_writer_command only after an (edge-triggered) readiness event of the command channel
+    let _ = rig.command_ready();
     sched::enter(0, s);
     loop {
         sched::yp("w_pop");
         if sh.stop.load(Ordering::SeqCst) {
             break;
         }
-        let _ = rig.process_commands();
+        if rig.command_ready() {
+            let _ = rig.process_commands();
+        }
     }
     sched::leave();
 }
@@ -429,6 +433,9 @@ pub fn run_one(run_no: usize, spec: &SRunSpec, out: &mut Vec<Value>) -> Vec<Vec<
             }
         }
     };
+    // bring both threads from "start" to their first yield point: that is where the model's program counters begin
+    do_step(0, out, &mut hung);
+    do_step(1, out, &mut hung);
     for &t in &spec.sched {
         if hung {
             break;
